@@ -7,9 +7,10 @@ ID = "C04"
 OWN = ("path", "point", "extra", "reject", "rowcount")
 
 PATH = ["x_le", "x_vec_ge", "xu_between", "u_between", "t_eq", "xt_le", "pc_le", "vc_ge", "pg_le", "dt_le",
-        "next", "prev", "off2", "offm2", "next_u", "next_pc", "next_pcq", "z_le", "x_vec_mixed", "x_vec_mixed_lb"]
+        "next", "prev", "off2", "offm2", "next_u", "next_pc", "next_pcq", "z_le", "x_vec_mixed", "x_vec_mixed_lb",
+        "diff2", "diff2_rev", "prev_offm2", "xq_le"]
 POINT = ["bc0", "bcf", "bc_mixed", "periodic", "bcT", "vg_le", "intq"]
-OFFS = ("next", "prev", "off2", "offm2", "next_u", "next_pc", "next_pcq")
+OFFS = ("next", "prev", "off2", "offm2", "next_u", "next_pc", "next_pcq", "diff2", "diff2_rev", "prev_offm2")
 
 DIMS = dict(
     con=["x_le"] + PATH[1:] + POINT,
@@ -31,6 +32,9 @@ CDIMS = ("con", "cgrid", "include_first", "include_last", "second", "method")
 
 
 def forbid(a):
+    if a["con"] == "xq_le" and a["cgrid"] == "integrator_roots":
+        return True      # the running quadrature value is only modelled at the integrator points
+
     if a["con"] in OFFS and a["cgrid"] in ("integrator", "integrator_roots"):
         return True      # offsets are defined on the control grid only (statement: shifted by whole intervals)
     if a["con"] in POINT and (a["cgrid"] is not None):
@@ -50,6 +54,7 @@ def finish(a):
     if con == "z_le":
         kw["alg"] = True; kw["method"] = "DC"
     if con == "vg_le": kw["vg"] = True
+    if con == "xq_le": kw["quad"] = True
     d = P.case(**kw)
     cons = [P.con(con, grid=cg, include_first=inf, include_last=inl)]
     if sec == "same":
@@ -141,7 +146,7 @@ def run_case(case):
     # finer tags for known-finding matching
     for v in out["violations"]:
         for c in d["cons"]:
-            if c["c"] in ("prev", "offm2"):
+            if c["c"] in ("prev", "offm2", "diff2", "diff2_rev", "prev_offm2"):
                 v["tags"].append("negative_offset")
             if c["c"] in OFFS:
                 v["tags"].append("offset")
